@@ -6,6 +6,8 @@ import (
 	"context"
 	"errors"
 	"fmt"
+	"github.com/libp2p/go-libp2p/core/network"
+	manet "github.com/multiformats/go-multiaddr/net"
 	"strings"
 	"testing"
 	"testing/synctest"
@@ -260,6 +262,27 @@ var classes = []addrClass{
 	{"pub-udp6", true, true, true, false, func(i int) string { return fmt.Sprintf("/ip6/2600:1f00::1:%x/udp/4001/quic-v1", 1+i%200) }},
 	{"loop-udp4", false, true, false, false, func(i int) string { return fmt.Sprintf("/ip4/127.0.0.1/udp/%d/quic-v1", 5000+i%200) }},
 	{"pub-wt4", true, true, false, false, func(i int) string { return fmt.Sprintf("/ip4/1.2.5.%d/udp/4001/quic-v1/webtransport", 1+i%200) }},
+	// neither public nor private (benchmarking net, documentation prefix, outside 2000::/3; link-local
+	// IPv6 is left out: the swarm drops it in another, documented filter):
+	// not public, so the filter must leave them alone
+	{"bench-udp4", false, true, false, false, func(i int) string { return fmt.Sprintf("/ip4/198.18.0.%d/udp/4001/quic-v1", 1+i%200) }},
+	{"doc-udp6", false, true, true, false, func(i int) string { return fmt.Sprintf("/ip6/2001:db8::%x/udp/4001/quic-v1", 1+i%200) }},
+	{"doc-tcp6", false, false, true, false, func(i int) string { return fmt.Sprintf("/ip6/2001:db8::1:%x/tcp/4001", 1+i%200) }},
+	{"nonglobal-tcp6", false, false, true, false, func(i int) string { return fmt.Sprintf("/ip6/200::%x/tcp/4001", 1+i%200) }},
+}
+
+// TestClassesSelfCheck: the table's public flag is what the library's own classification says
+// (the statement's "public" / "private" are manet's; the harness must not disagree with it).
+func TestClassesSelfCheck(t *testing.T) {
+	hx.Shard0(t)
+	for _, c := range classes {
+		for i := 0; i < 3; i++ {
+			a := ma.StringCast(c.mk(i))
+			if got := manet.IsPublicAddr(a); got != c.public {
+				t.Fatalf("class %s: %s IsPublicAddr=%v, table says %v", c.name, a, got, c.public)
+			}
+		}
+	}
 }
 
 type counterPair struct {
@@ -326,6 +349,7 @@ func TestFilterThroughSwarm(t *testing.T) {
 			Kind    string   `json:"kind"`
 			Classes []string `json:"classes"`
 			Succeed bool     `json:"succeed,omitempty"`
+			Sim     bool     `json:"simultaneousConnect,omitempty"`
 			ci      []int
 		}
 		nops := rapid.IntRange(1, 12).Draw(rt, "nops")
@@ -336,7 +360,7 @@ func TestFilterThroughSwarm(t *testing.T) {
 				ops[i] = op{Kind: "CanDial", Classes: []string{classes[ci].name}, ci: []int{ci}}
 			} else {
 				k := rapid.IntRange(1, 5).Draw(rt, "naddrs")
-				o := op{Kind: "DialPeer", Succeed: k == 1 && rapid.Bool().Draw(rt, "succeed")}
+				o := op{Kind: "DialPeer", Succeed: k == 1 && rapid.Bool().Draw(rt, "succeed"), Sim: rapid.IntRange(0, 3).Draw(rt, "simConnect") == 0}
 				for j := 0; j < k; j++ {
 					ci := rapid.IntRange(0, len(classes)-1).Draw(rt, "class")
 					o.ci = append(o.ci, ci)
@@ -449,6 +473,10 @@ func TestFilterThroughSwarm(t *testing.T) {
 					ps.AddAddrs(target.ID, addrs, time.Hour)
 					before := len(w.Snapshot())
 					ctx, cancel := context.WithTimeout(context.Background(), time.Minute)
+					if o.Sim {
+						// how hole punching dials; the detector treats these dials like any other
+						ctx = network.WithSimultaneousConnect(ctx, true, "c20")
+					}
 					conn, err := sw.DialPeer(ctx, target.ID)
 					cancel()
 					synctest.Wait()
@@ -466,7 +494,7 @@ func TestFilterThroughSwarm(t *testing.T) {
 							}
 						}
 					}
-					trace = append(trace, fmt.Sprintf("DialPeer(%v succeed=%v) dialled=%d refused=%d err=%v", o.Classes, o.Succeed, len(dialled), len(refused), err != nil))
+					trace = append(trace, fmt.Sprintf("DialPeer(%v succeed=%v sim=%v) dialled=%d refused=%d err=%v", o.Classes, o.Succeed, o.Sim, len(dialled), len(refused), err != nil))
 					if o.Succeed && conn == nil && len(refused) == 0 {
 						rt.Fatalf("op %d: dial scripted to succeed failed without a black-hole refusal: %v", i, err)
 					}
